@@ -47,6 +47,86 @@ static std::string handle(const std::vector<std::string>& a) {
     out += " leaked=" + std::to_string(spy.live.size()) + (spy.misuse ? " MISUSE" : "");
     return out;
   }
+  // ARUN <ops...> : one array or one object (root of a JsonDocument) seen as its chain of slot ids.
+  //   a<mask> array.add();  g<k>:<mask> array[k] (getOrAddElement);  r<k> array.remove(k);
+  //   o<mask> object[fresh key];  p<k> object.remove(k-th key);  c clear();  s shrinkToFit()
+  //   mask bit j set => the j-th allocator call made by this op fails.
+  // after every op: <slot id | x>/<allocator calls>/<chain of slot ids>
+  if (a[0] == "ARUN") {
+    SpyAllocator spy;
+    std::string out;
+    {
+      JsonDocument doc(&spy);
+      bool isObj = false;
+      for (size_t i = 1; i < a.size(); i++) if (a[i][0] == 'o' || a[i][0] == 'p') isObj = true;
+      if (isObj) doc.to<JsonObject>(); else doc.to<JsonArray>();
+      auto* rm = detail::VariantAttorney::getResourceManager(doc);
+      auto* root = detail::VariantAttorney::getData(doc);
+      auto chain = [&]() {
+        std::vector<unsigned long> ids;
+        auto* c = root->asCollection();
+        if (!c) return ids;
+        auto id = c->head();
+        while (id != detail::NULL_SLOT && ids.size() < 100000) { ids.push_back(id); id = rm->getVariant(id)->next(); }
+        return ids;
+      };
+      int fresh = 0;
+      for (size_t i = 1; i < a.size(); i++) {
+        const std::string& op = a[i];
+        std::string res = "x";
+        size_t calls0 = spy.calls;
+        bool counts = false;
+        auto setmask = [&](int mask) {
+          spy.fail.assign(spy.calls + 8, false);
+          for (int j = 0; j < 8; j++) spy.fail[spy.calls + j] = (mask >> j) & 1;
+        };
+        if (op[0] == 'a') {
+          setmask(std::stoi(op.substr(1))); counts = true;
+          JsonVariant v = doc.add<JsonVariant>();
+          spy.fail.clear();
+          if (!v.isUnbound()) res = std::to_string(chain().back());
+        } else if (op[0] == 'g') {
+          size_t colon = op.find(':');
+          size_t k = std::stoul(op.substr(1, colon - 1));
+          setmask(std::stoi(op.substr(colon + 1))); counts = true;
+          JsonVariant v = doc[k].to<JsonVariant>();
+          spy.fail.clear();
+          auto ids = chain();
+          if (!v.isUnbound() && k < ids.size()) res = std::to_string(ids[k]);
+        } else if (op[0] == 'r') {
+          size_t k = std::stoul(op.substr(1));
+          auto ids = chain();
+          if (k < ids.size()) res = std::to_string(ids[k]);
+          doc.remove(k);
+        } else if (op[0] == 'o') {
+          setmask(std::stoi(op.substr(1))); counts = true;
+          std::string key = "k" + std::to_string(fresh++);
+          JsonVariant v = doc[key].to<JsonVariant>();
+          spy.fail.clear();
+          if (!v.isUnbound()) res = std::to_string(chain().back());
+        } else if (op[0] == 'p') {
+          size_t k = std::stoul(op.substr(1));
+          auto ids = chain();
+          if (2 * k < ids.size()) {
+            res = std::to_string(ids[2 * k]);
+            std::string key = rm->getVariant(ids[2 * k])->asString().c_str();
+            doc.remove(key);
+          }
+        } else if (op[0] == 's') {
+          doc.shrinkToFit();
+        } else if (op[0] == 'c') {
+          if (isObj) doc.as<JsonObject>().clear(); else doc.as<JsonArray>().clear();
+        }
+        out += res + "/" + std::to_string(counts ? spy.calls - calls0 : 0) + "/";
+        auto ids = chain();
+        for (size_t j = 0; j < ids.size(); j++) out += (j ? "," : "") + std::to_string(ids[j]);
+        out += " ";
+      }
+      out += std::string("ov=") + (doc.overflowed() ? "1" : "0");
+    }
+    out += " leaked=" + std::to_string(spy.live.size()) + (spy.misuse ? " MISUSE" : "");
+    return out;
+  }
   return "?";
 }
 
